@@ -914,6 +914,12 @@ func (g *Gen) verifyFunc(fn *ssa.Function, con *Contract) (vc *VC, err error) {
 	// a call site the contract speaks about must exist
 	for site, cls := range con.Asserts {
 		if !x.seenSites[site] {
+			var have []string
+			for s := range x.seenSites {
+				have = append(have, s)
+			}
+			sort.Strings(have)
+			vc.note("contract of " + name + " names a call site that does not exist: " + site + " (sites: " + strings.Join(have, "; ") + ")")
 			for _, cl := range cls {
 				x.obligeClause("assert", site+"/site-missing/"+clauseLabel(cl), "true", "false", cl)
 			}
